@@ -17,15 +17,16 @@ if [ $c0 -ne 0 ] || [ $c1 -eq 0 ]; then echo "MUTANT NOT CONFIRMED (clean=$c0 pa
 case "$suite" in *"1 failed, 57 passed"*) ;; *) echo "MUTANT NOT CONFIRMED: suite changed: $suite"; exit 3;; esac
 D=/verif/seeded/$SID; mkdir -p $D
 cp $M/patch.diff $D/patch.diff; cp $M/demo.py $D/demo.py
-# --- run our checks against it
-cd /repo && git apply $D/patch.diff || { echo "patch does not apply to /repo"; exit 2; }
+# --- run our checks against it: the patch is applied in the scratch worktree and the checks are pointed at it (AMISC_REPO),
+# so /repo itself is never modified
+cd "$WT" && git apply $D/patch.diff || { echo "patch does not apply"; exit 2; }
 res=""
 for pid in "$@"; do
-  out=$(cd /verif && ./check $pid --tier quick 2>&1 | grep -E "VIOLATION|exit [01]$" | head -3)
+  out=$(cd /verif && AMISC_REPO=$WT ./check $pid --tier quick 2>&1 | grep -E "VIOLATION|exit [01]$" | head -3)
   echo "-- $pid: $out"
   if echo "$out" | grep -q VIOLATION; then res="$res $pid:caught"; else res="$res $pid:missed"; fi
 done
-cd /repo && git checkout -- . && git status --short | head -3
+cd "$WT" && git checkout -q -- src
 /venv/bin/python - "$M/meta.json" "$D/meta.json" "$suite" "$res" "$*" <<'PY'
 import json,sys
 src,dst,suite,res,checks=sys.argv[1:6]
